@@ -275,7 +275,7 @@ impl<A: TreeApi> TreeSut<A> {
         ];
         let n = NAMES.iter().find(|n| **n == name)?;
         let args: Vec<i128> = it.filter_map(|a| a.parse().ok()).collect();
-        Some(Op { name: n, args })
+        Some(Op { name: n, args, blob: None })
     }
 }
 
